@@ -174,6 +174,17 @@ class Parser:
         if k == "ident":
             if v in ("true", "false"):
                 return ("bool", v == "true")
+            if v == "if":
+                cond = self.expr(nostruct=True)
+                self.expect("{")
+                a = self.expr()
+                self.expect("}")
+                if self.next()[1] != "else":
+                    raise TieBroken("if-expression without else")
+                self.expect("{")
+                b = self.expr()
+                self.expect("}")
+                return ("ifexpr", cond, a, b)
             segs = [v]
             while self.at("::"):
                 self.next()
